@@ -346,6 +346,11 @@ example : ikId "112313".toList "servicefoo".toList "systembar".toList none = "_I
 example : parseKeyId "_IK_112313_servicefoo_systembar_us-west-2".toList =
     some (.ik "112313".toList "servicefoo".toList "systembar".toList (some "us-west-2".toList)) := by decide
 example : toPb ⟨none, []⟩ = .panic := rfl
+example : sqlRowDecode (sqlRowOf "_SK_a_b".toList 7 exRevoked) = some exRevoked := (sql_row_roundtrip _ _ _).1
+example : KmsEnvelope.fromJson (KmsEnvelope.toJson ⟨[1, 2], [⟨"us-west-2".toList, "arn:aws:kms:x".toList, [3]⟩]⟩) =
+    some ⟨[1, 2], [⟨"us-west-2".toList, "arn:aws:kms:x".toList, [3]⟩]⟩ := (kms_envelope_roundtrip _).1
+example : String.ofList (KmsEnvelope.toJson ⟨[1, 2], [⟨"r".toList, "a".toList, [3]⟩]⟩).print =
+    "{\"encryptedKey\":\"AQI=\",\"kmsKeks\":[{\"region\":\"r\",\"arn\":\"a\",\"encryptedKek\":\"Aw==\"}]}" := by decide +kernel
 example : avToItem (itemToAV "id".toList 5 exRevoked) = some ("id".toList, exRevoked) := ddb2_item_roundtrip _ _ _
 -- a toy cipher hierarchy: built, then decrypted through all layers (instance of `chain_roundtrip`)
 def toyCipher : Cipher := { κ := UInt64, prep := fun b => some (UInt64.ofNat b.length), E := toyE }
@@ -398,7 +403,6 @@ not a syntactic fact but checked behaviourally on every run (raw AEAD correspond
 theorem aead_shape_matches :
     Generated.Fmt.cryptoEncryptSkeleton = Expected.Fmt.cryptoEncryptSkeleton ∧
     Generated.Fmt.cryptoDecryptSkeleton = Expected.Fmt.cryptoDecryptSkeleton ∧
-    Generated.Fmt.aesGCMCipherFactorySkeleton = Expected.Fmt.aesGCMCipherFactorySkeleton ∧
     Generated.Fmt.staticKMSEncryptKeySkeleton = Expected.Fmt.staticKMSEncryptKeySkeleton ∧
     Generated.Fmt.staticKMSDecryptKeySkeleton = Expected.Fmt.staticKMSDecryptKeySkeleton ∧
     Generated.Fmt.decryptRowSkeleton = Expected.Fmt.decryptRowSkeleton := by decide
@@ -416,8 +420,6 @@ theorem carriers_match_documented :
     Generated.Fmt.sqlLoadKeyQuery = Expected.Fmt.sqlLoadKeyQuery ∧
     Generated.Fmt.sqlStoreKeyQuery = Expected.Fmt.sqlStoreKeyQuery ∧
     Generated.Fmt.sqlLoadLatestQuery = Expected.Fmt.sqlLoadLatestQuery ∧
-    Generated.Fmt.sqlSQLMetastoreStoreSkeleton = Expected.Fmt.sqlSQLMetastoreStoreSkeleton ∧
-    Generated.Fmt.sqlparseEnvelopeSkeleton = Expected.Fmt.sqlparseEnvelopeSkeleton ∧
     Generated.Fmt.ddb1AttrNames = Expected.Fmt.ddb1AttrNames ∧
     Generated.Fmt.ddb2AttrNames = Expected.Fmt.ddb2AttrNames ∧
     Generated.Fmt.ddb1Envelope = Expected.Fmt.ddb1Envelope ∧
@@ -425,9 +427,7 @@ theorem carriers_match_documented :
     Generated.Fmt.ddb2Envelope = Expected.Fmt.ddb2Envelope ∧
     Generated.Fmt.ddb2KeyMeta = Expected.Fmt.ddb2KeyMeta ∧
     Generated.Fmt.ddb1StoreFields = Expected.Fmt.ddb1StoreFields ∧
-    Generated.Fmt.ddb1ParseResultSkeleton = Expected.Fmt.ddb1ParseResultSkeleton ∧
     Generated.Fmt.ddb2StoreFields = Expected.Fmt.ddb2StoreFields ∧
-    Generated.Fmt.ddb2DecodeItemSkeleton = Expected.Fmt.ddb2DecodeItemSkeleton ∧
     Generated.Fmt.ddb2DecodeItemFields = Expected.Fmt.ddb2DecodeItemFields ∧
     Generated.Fmt.toProtobufDRRFields = Expected.Fmt.toProtobufDRRFields ∧
     Generated.Fmt.fromProtobufDRRFields = Expected.Fmt.fromProtobufDRRFields ∧
